@@ -98,7 +98,8 @@ func (t *WeightedMerkleTrie) collectNodes(node Node, persistTrie *PersistTrie) e
 	if !node.ToCollect() {
 		if r, ok := node.(*routingNode); ok {
 			node = &hashNode{
-				hash:   r.hash,
+				// the branch may never have been hashed (trie still in memory)
+				hash:   hashOf(r),
 				weight: r.weight,
 			}
 		}
